@@ -25,11 +25,11 @@ MODULES = ["TypelibModel.Props.C07", "TypelibModel.Props.Dispatch"]
 TABLES = True
 RULE = ("all cycle topologies over 1-3 classes, each recursive edge drawn from {Optional[X], list[X], dict[str, X], tuple[X, ...], "
         "X | None}, flavours dataclass / NamedTuple / plain, any class as root and any container of a cyclic class as root; "
-        "recursive aliases (type A = dict[str, A | int], list[A] | int); values of every depth 0..D (D = 12 quick, 150 thorough)")
+        "Optional[tuple[X, ...]] (empty tuple at the base: a falsy member that is not None), recursive aliases (type A = dict[str, A | int], list[A] | int); values of every depth 0..D (D = 12 quick, 150 thorough)")
 ASSUMPTIONS = ["depth 150 stays below the interpreter's default recursion limit (each level costs several frames)"]
 TRUSTED = ["harness topology generator"]
 
-EDGES = ["optional", "list", "dict", "vartuple", "pipe", "nonefirst", "pipefirst", "direct"]
+EDGES = ["optional", "list", "dict", "vartuple", "pipe", "nonefirst", "pipefirst", "direct", "optvartuple"]
 
 
 def edge_ty(kind, target):
@@ -46,6 +46,8 @@ def edge_ty(kind, target):
         return ["coll", "list", t, {"sp": "builtin"}]
     if kind == "dict":
         return ["dict", ["str"], t, {"sp": "builtin"}]
+    if kind == "optvartuple":    # an Optional edge whose other member has a FALSY value that still needs conversion: () -> []
+        return ["union", [["coll", "vartuple", t], ["none"]], {"sp": "optional"}]
     if kind == "direct":
         return t            # a plain class annotation (only on forward edges i -> j, i < j: some other edge closes the cycle)
     return ["coll", "vartuple", t]
@@ -59,6 +61,8 @@ def wrap_val(kind, inner):
         return ["l", [] if inner is None else [inner]]
     if kind == "dict":
         return ["d", [] if inner is None else [["k", inner]]]
+    if kind == "optvartuple":
+        return ["t", [] if inner is None else [inner]]
     return ["t", [] if inner is None else [inner]]
 
 
@@ -184,16 +188,22 @@ def alias_child(job):
          "type O = dict[str, O] | None\n"
          "type TD = list[TD] | datetime.date\ntype DD = dict[str, DD] | datetime.date\ntype ND = tuple[ND, ...] | datetime.date\n"
          "type Rows = list[Cell] | None\ntype Cell = dict[str, Rows] | datetime.date\n"
-         "class Item(typing.TypedDict):\n    day: datetime.date\n    parts: list[Item]\n", mod.__dict__)
+         "class Item(typing.TypedDict):\n    day: datetime.date\n    parts: list[Item]\n"
+         # a container-like class: an instance without children is FALSY, and is an instance to convert all the same
+         "import dataclasses\n@dataclasses.dataclass\nclass Tree:\n    day: datetime.date\n    left: Tree | None = None\n"
+         "    right: typing.Optional[Tree] = None\n    def __len__(self):\n        return (self.left is not None) + (self.right is not None)\n",
+         mod.__dict__)
     import datetime
     out = []
     for name, depth in job:
         t = getattr(mod, name)
-        if name in ("TD", "DD", "ND", "Rows", "Item"):
+        if name in ("TD", "DD", "ND", "Rows", "Item", "Tree"):
             # leaves that need conversion: every level of the marshalled form must be plain, and equal to the expected wire
             day, iso = datetime.date(2020, 1, 2), "2020-01-02"
             if name == "Item":
                 val, wire = {"day": day, "parts": []}, {"day": iso, "parts": []}
+            elif name == "Tree":
+                val, wire = t(day), {"day": iso, "left": None, "right": None}
             else:
                 val, wire = (None, None) if name == "Rows" else (day, iso)
             for i in range(depth // 2 if name == "Rows" else depth):      # one level of Rows = two container levels
@@ -203,6 +213,8 @@ def alias_child(job):
                     val, wire = {"k": val, "d": day}, {"k": wire, "d": iso}
                 elif name == "ND":
                     val, wire = (val, day), [wire, iso]
+                elif name == "Tree":
+                    val, wire = t(day, t(day), val), {"day": iso, "left": {"day": iso, "left": None, "right": None}, "right": wire}
                 elif name == "Rows":
                     val, wire = [{"r": val}, day], [{"r": wire}, iso]       # Rows = list[Cell]; Cell = dict[str, Rows] | date
                 else:
@@ -306,7 +318,7 @@ def explore(ctx):
                 res.count("oracle:roundtrip-every-level")
     # recursive aliases
     core.import_typelib()
-    ajobs = [[(name, d) for d in depths] for name in ("A", "L", "O", "TD", "DD", "ND", "Rows", "Item")]
+    ajobs = [[(name, d) for d in depths] for name in ("A", "L", "O", "TD", "DD", "ND", "Rows", "Item", "Tree")]
     for out in iso.map_isolated(alias_child, ajobs, timeout=120):
         if isinstance(out, dict) and "crash" in out:
             res.failures.append({"what": f"recursive alias: {out['crash']}", "input": {"alias": "?"}})
